@@ -60,6 +60,7 @@ def configs(tier):
         kw.setdefault("preempt", None)
         kw.setdefault("kind", "raw")
         kw.setdefault("queries", ("num_results", "ready", "missing"))
+        kw.setdefault("clean_up", False)
         kw["name"] = name
         cs.append(kw)
 
@@ -78,6 +79,11 @@ def configs(tier):
     add("d-B2-poll1-missing", B=2, growers=[1, 2], poll=1, chunks=1,
         queries=("missing",), preempt=3)
     add("d-B1-poll2", B=1, growers=[1], poll=2)
+    # default clean-up (the reaper deletes the crop when done); batches are
+    # distinct, so every grower has finished before the deletion can start
+    add("g-B2-cleanup", B=2, growers=[1, 2], clean_up=None)
+    # one grower process growing two batches, another one the third
+    add("h-B3-cropgrow-pair", B=3, growers=[[1, 2], 3], entry="cropgrow")
     if tier == "thorough":
         add("b-B2-c3", B=2, growers=[1, 2], chunks=3)
         add("b-B2-cropgrow", B=2, growers=[1, 2], entry="cropgrow")
@@ -123,13 +129,16 @@ class Setup:
         cfg, d = self.cfg, self.d
         acts = []
         for n, i in enumerate(cfg["growers"]):
+            ids = i if isinstance(i, list) else [i]
             if cfg["entry"] == "grow":
-                acts.append(("G%d.%d" % (i, n), lambda ex, i=i: grow(
+                acts.append(("G%d.%d" % (ids[0], n), lambda ex, i=ids[0]: grow(
                     i, crop=_crop(d), verbosity=0)))
             else:
-                acts.append(("G%d.%d" % (i, n), lambda ex, i=i: _crop(d).grow(
-                    [i], verbosity=0)))
-        acts.append(("R", lambda ex: _crop(d).reap(wait=True, clean_up=False)))
+                acts.append(("G%d.%d" % (ids[0], n),
+                             lambda ex, ids=ids: _crop(d).grow(
+                                 list(ids), verbosity=0)))
+        cu = cfg["clean_up"]
+        acts.append(("R", lambda ex: _crop(d).reap(wait=True, clean_up=cu)))
         if cfg["poll"]:
             def poller(ex, rounds=cfg["poll"]):
                 crop = _crop(d)
